@@ -80,6 +80,10 @@ def tasks(tier, seed):
         if len(out) % 6 == 0:
             out[-1]["episode2"] = True
             out[-1]["key"] += "/episode2"
+    for i, t in enumerate(out):
+        if i % 3 == 1 and t["via"] == "direct":
+            t["decoy"] = True
+            t["key"] += "/decoy"
     # one configuration with additional initially-known coalitions
     add(4, [3], 12, "superadditive_cached", "exploitability", "none", "direct", extra_init=[5, 10])
     # the collection of initially known coalitions may list a coalition twice (and the minimal ones again); with a step budget
@@ -138,6 +142,16 @@ def scenario(pk, params, inp):
         return _full(pk, n, _draw(inp, counter["k"], n))
     budget = None if params["budget"] == "none" else inp.real("B")
     gapf = _gaps(pk)[params["gap"]]
+    if params.get("decoy"):
+        # ANOTHER environment of the same size alive in the same process (its own hidden game, one more initially known coalition, a
+        # step taken): module-level state keyed too coarsely must not leak into the environment under test
+        dgame = pk.game.IncompleteCooperativeGame(n, pk.bounds.BOUNDS[params["computer"]])
+        extra = [S for S in F.extras(n) if S not in params["init"]][-1]
+        denv = pk.icg_gym.ICG_Gym(dgame, lambda: _full(pk, n, _draw(inp, 3, n)), [C(S) for S in F.minimal(n)] + [C(extra)], gapf, done_after_n_actions=budget)
+        denv.reset()
+        if any(denv.action_masks()):
+            denv.step([i for i, ok in enumerate(denv.action_masks()) if ok][0])
+        _ = (denv.reward, denv.done, list(denv.state))
     init = [C(S) for S in F.minimal(n)] + [C(S) for S in params["init"]]
     if params["via"] == "model" and not params["init"]:
         # the registry entry stays for the life of the (forked, single-task) process: the instance looks it up on every reset
